@@ -5,6 +5,7 @@ package server
 import (
 	"bytes"
 	"fmt"
+	"github.com/cbeuw/Cloak/internal/vnet"
 	"strings"
 
 	"github.com/cbeuw/Cloak/internal/client"
@@ -138,6 +139,18 @@ func init() {
 				uid := uidOf(0)
 				r := newE2ERig(newMemManager(), [][]byte{uid, uidOf(1)}, nil)
 				rig = r
+				// partial=<k>: on the first connection the client's k-th write (1 = the ClientHello) puts only its
+				// first 100 bytes on the wire and fails with a timeout
+				partialAt := c.PI("partial", 0)
+				if partialAt > 0 {
+					first := true
+					r.dialer.OnDial = func(address string, cn *vnet.Conn) {
+						if first && address == "server:443" {
+							first = false
+							cn.PartialAt, cn.PartialKeep = partialAt, 100
+						}
+					}
+				}
 				if c.P("second", "") != "" {
 					r.serve(numConn + 1)
 				} else {
@@ -197,6 +210,9 @@ func init() {
 						defer wg.Done()
 						st, err := sesh.OpenStream()
 						if err != nil {
+							if partialAt > 0 {
+								return // the injected fault may legitimately have torn the session down
+							}
 							vrt.Fail("traffic", "OpenStream: %v", err)
 						}
 						data := make([]byte, sz)
@@ -207,6 +223,9 @@ func init() {
 							data = data[:16000]
 						}
 						if _, err := st.Write(data); err != nil {
+							if partialAt > 0 {
+								return
+							}
 							vrt.Fail("traffic", "Write: %v", err)
 						}
 						got := make([]byte, 0, len(data))
@@ -214,6 +233,9 @@ func init() {
 						for len(got) < len(data) {
 							k, err := st.Read(buf)
 							if err != nil {
+								if partialAt > 0 {
+									return
+								}
 								vrt.Fail("traffic", "Read after %d/%d bytes: %v", len(got), len(data), err)
 							}
 							got = append(got, buf[:k]...)
@@ -244,6 +266,14 @@ func init() {
 					}
 					if names[serverName] != numConn || names[second] != 1 {
 						vrt.Fail("well-formed-tls-stream", "two clients configured with server names %q (%d connections) and %q (1 connection) connected at the same time; the ClientHellos on the wire carry %v", serverName, numConn, second, names)
+					}
+				} else if partialAt > 0 {
+					// a write that failed half-way may leave a truncated record as the very last thing on its
+					// connection; everything in front of it, and every other connection, is a well-formed record stream
+					for k := 1; k <= numConn; k++ {
+						if m := recordStreamWithTail(r, fmt.Sprintf("server:443#%d", k)); m != "" {
+							vrt.Fail("well-formed-tls-stream", "connection %d (write %d of connection 1 timed out after 100 bytes): %s", k, partialAt, m)
+						}
 					}
 				} else {
 					for k := 1; k <= numConn; k++ {
@@ -388,6 +418,10 @@ func init() {
 		// concurrent handshakes with recycling pools: of one session's connections, and of two clients in one process
 		add(map[bool]int{true: 1, false: 2}[q], "browser", "firefox", "sizes", "1", "numconn", "2", "ending", "client-close", "pool", "recycle")
 		add(map[bool]int{true: 2, false: 3}[q], "browser", "firefox", "sizes", "1", "numconn", "1", "ending", "client-close", "pool", "recycle", "second", "other.example.net", "servername", "example.com")
+		// a write that times out half-way (every write position of the first connection)
+		for _, k := range []string{"2", "3", "4"} {
+			add(map[bool]int{true: 0, false: 1}[q], "browser", "firefox", "sizes", "1,300", "numconn", "2", "ending", "client-close", "partial", k)
+		}
 		for _, br := range []string{"firefox", "chrome"} {
 			jobs = append(jobs, vx.Job{Scenario: "wire.hellos", Params: vx.P("clients", "2", "browser", br, "pool", "recycle"), Bound: map[bool]int{true: 2, false: 3}[q], BudgetS: map[bool]int{true: 100, false: 900}[q], Weight: 4})
 		}
@@ -437,6 +471,34 @@ func sniOnWire(r *e2eRig, pair string) string {
 		return ""
 	}
 	return ch.SNI
+}
+
+// recordStreamWithTail: the client->server bytes of a connection are TLS records (the first a handshake
+// record, then application data of legal length), possibly followed by one incomplete record at the end.
+func recordStreamWithTail(r *e2eRig, pair string) string {
+	var b []byte
+	for _, t := range r.net.Tap {
+		if t.Conn == pair && t.Dir == "a>b" {
+			b = append(b, t.Data...)
+		}
+	}
+	off, n := 0, 0
+	for off+5 <= len(b) {
+		typ, ver, l := b[off], uint16(b[off+1])<<8|uint16(b[off+2]), int(b[off+3])<<8|int(b[off+4])
+		if n == 0 {
+			if typ != 22 {
+				return fmt.Sprintf("first record has type %d", typ)
+			}
+		} else if typ != 23 || ver != 0x0303 || l == 0 || l > 16640 {
+			return fmt.Sprintf("record %d at offset %d has type %d version %#04x length %d", n, off, typ, ver, l)
+		}
+		if off+5+l > len(b) {
+			return "" // the incomplete record at the very end
+		}
+		off += 5 + l
+		n++
+	}
+	return ""
 }
 
 func parseIntsC(s string) []int {
